@@ -1052,8 +1052,6 @@ class PyCdlib:
                                       dir_record)
                 offset += lenbyte
 
-                self._set_rock_ridge(rr)
-
                 # Cache some properties of this record for later use.
                 is_symlink = new_record.is_symlink()
                 dots = new_record.is_dot() or new_record.is_dotdot()
@@ -1129,6 +1127,11 @@ class PyCdlib:
                                                        ce_record.offset_cont_area,
                                                        ce_record.len_cont_area)
                     new_record.rock_ridge.update_ce_block(block)
+                    # The continuation area may hold the entries that tell us
+                    # which version of Rock Ridge this is.
+                    rr = new_record.rock_ridge.rr_version
+
+                self._set_rock_ridge(rr)
 
                 if rr_cl:
                     child_links.append(new_record)
